@@ -77,7 +77,8 @@ def case_s(draw, kinds=("tcp-lines", "unix-lines", "server", "tcp-lines", "unix-
     # which reads get their time limit from the caller (an enclosing asyncio.timeout(), as wait_for_ecu() and scanners do) instead of
     # the timeout argument: an abandoned read consumes nothing either
     outer = draw(st.one_of(st.just([]), st.lists(st.booleans(), min_size=len(reads), max_size=len(reads))))
-    return {"kind": kind, "msgs": msgs, "cuts": cuts, "gaps": gaps, "reads": reads, "eof_gap": eof_gap, "wblock": wblock, "partial": partial, "outer": outer}
+    return {"kind": kind, "msgs": msgs, "cuts": cuts, "gaps": gaps, "reads": reads, "eof_gap": eof_gap, "wblock": wblock, "partial": partial, "outer": outer,
+            "idle_peer": draw(st.sampled_from([0, 0, 0, 1, 2])) if kind not in ("server", "server2") else 0}
 
 
 def f_reply(req: bytes, idx: int) -> bytes | None:
@@ -218,6 +219,12 @@ def check(case: dict[str, Any]) -> list[tuple[str, str]]:
         reader = asyncio.StreamReader(limit=2**16)
         writer = BPWriter()
         tr = _make_transport(kind, reader, writer)
+        idle_task = None
+        if case.get("idle_peer"):
+            # another line connection of the same process (a second ECU, a power supply) sits in a read that nothing answers
+            idle = _make_transport(kind, asyncio.StreamReader(limit=2**16), BPWriter())
+            idle_task = asyncio.ensure_future(idle.read(timeout=None if case["idle_peer"] == 1 else 100000.3))
+            await asyncio.sleep(0)
         _schedule(loop, reader, arr, t_eof)
         prog = list(case["reads"]) + [1000.3701] * (len(case["msgs"]) + 2)
         outer = list(case.get("outer") or [])
@@ -234,6 +241,12 @@ def check(case: dict[str, Any]) -> list[tuple[str, str]]:
             except Exception as e:  # noqa: BLE001
                 got.append(("exc", f"{type(e).__name__}: {e}", loop.time()))
                 break
+        if idle_task is not None:
+            idle_task.cancel()
+            try:
+                await idle_task
+            except BaseException:  # noqa: BLE001
+                pass
         # write side: exactly hexlify(m)+LF per write; a write that times out under back-pressure may or may not have queued its
         # line, but the peer must only ever see complete lines of messages that were written, in order
         wblock = list(case.get("wblock") or [])
@@ -489,6 +502,18 @@ def check_real(case: dict[str, Any]) -> list[tuple[str, str]]:
                 if not belongs(req, rep):
                     out.append((f"C19/real/{scheme}/foreign-reply", f"request of {n} bytes starting {req[:4].hex()}: reply {rep.hex()[:40]}"))
                     return
+            # somebody else connects to the virtual ECU and hangs up without a word (a port scan, a health check): this tester's
+            # conversation goes on
+            try:
+                if scheme == "unix-lines":
+                    _, pw = await asyncio.open_unix_connection(str(d / "ecu.sock"))
+                else:
+                    _, pw = await asyncio.open_connection("127.0.0.1", port)
+                pw.close()
+                await pw.wait_closed()
+                await asyncio.sleep(0.3)
+            except OSError:
+                pass
             burst = [bytes([sid, 0x01 + i]) for i, sid in enumerate(case["burst"])]
             for b in burst:
                 await tr.write(b, timeout=5)
